@@ -225,6 +225,9 @@ def check(ctx, case):
 					session.execute(text("INSERT INTO taxa (key, name, report, genome_set_id) VALUES (:k, :n, 1, :g)"),
 					                {'k': f'newsql-{i}', 'n': f'newsql{i}', 'g': gset_id})
 					outs.append('ok')
+				elif op == 'savepoint':
+					# a SAVEPOINT inside the session's transaction, left open: a later commit attempt happens while it is the current transaction
+					toks.append('savepoint'); session.begin_nested(); outs.append('ok')
 				elif op == 'flush':
 					toks.append('flush'); session.flush(); outs.append('ok')
 				elif op == 'commit':
@@ -292,6 +295,11 @@ def run(ctx):
 			if not ctx.time_left(0.95):
 				break
 			ops = [rng.choice(['add', 'del', 'mod', 'sql', 'flush', 'commit', 'commit', 'txncommit', 'txncommit', 'query', 'query', 'rollback', 'close']) for _ in range(rng.randint(1, 12))]
+			if rng.random() < 0.3:
+				# ... and, at the end, a savepoint left open while statements run and commits are attempted (rolling back *to* a savepoint is
+				# not modelled, so no rollback / close follows it)
+				ops += ['savepoint'] + [rng.choice(['sql', 'add', 'query', 'flush', 'savepoint']) for _ in range(rng.randint(0, 3))] + \
+				       [rng.choice(['txncommit', 'commit', 'query']) for _ in range(rng.randint(1, 3))]
 			sub({'kind': 'session', 'via': rng.choice(['default', 'refdb', 'cli']), 'ops': ops, 'prior': rng.choice([None, None, 'writable-maker', 'writable-session'])}, 'session-history')
 	finally:
 		if _w is not None:
